@@ -17,6 +17,7 @@ JUDGE_REF_CFG = ("INIT JudgeInit\nNEXT MachineNext\nCONSTRAINT JudgeEmit\nINVARI
 # as-is runs model the engine's defects (a skipped finally is one of them): only well-formedness is an invariant there
 JUDGE_ASIS_CFG = "INIT JudgeInit\nNEXT MachineNext\nCONSTRAINT JudgeEmit\nINVARIANT AsIsInvariants\nCHECK_DEADLOCK FALSE\n"
 NOT_JUDGEABLE = ("unsupported", "bound", "stuck")
+SHARDS = int(os.environ.get("VERIF_JUDGE_SHARDS", "10"))       # judge JVMs in parallel (each may take up to 3 GB)
 
 
 def key(c):
@@ -34,7 +35,7 @@ def enumerate_programs(rep, module, tier, tag="enum", cfg=ENUM_CFG, env=None, ti
     e = {"TIER": tier}
     e.update(env or {})
     t0 = time.time()
-    res = tlc.run(rep.pid, module, cfg, env=e, timeout=timeout, tag=tag)
+    res = tlc.run(rep.pid, module, cfg, env=e, timeout=timeout, tag=tag, heap="4g")
     timed(rep, "tlc_enumerate+invariants", t0)
     rep.add_tlc(module + "." + tag + " (MiniJS invariants on every state of every family program)", res)
     seen, cases = set(), []
@@ -57,14 +58,22 @@ def run_engine(rep, cases, tag="eng", hashseed="0", procs=None, driver="checks.c
     t0 = time.time()
     res = engine.run_cases(rep.pid, inp, driver=driver, tag=tag, hashseed=hashseed, procs=procs)
     timed(rep, "engine", t0)
-    return {r["id"]: r for r in res}
+    out = {r["id"]: r for r in res}
+    # the wall-clock watchdog is a last resort that an overloaded machine can trip (the deterministic guards are the
+    # virtual time limit and the step cap): such a verdict is re-run alone with a generous watchdog before it counts
+    again = [dict(c, wall=600.0) for c in inp if out[c["id"]]["out"].get("o") == "hang" and "wall" in str(out[c["id"]]["out"].get("why", ""))]
+    if again:
+        rep.notes["wall_clock_reruns"] = rep.notes.get("wall_clock_reruns", 0) + len(again)
+        for r in engine.run_cases(rep.pid, again, driver=driver, tag=tag + "_rerun", hashseed=hashseed, procs=1):
+            out[r["id"]] = r
+    return out
 
 
 def _judge_pass(rep, module, recs, cfg, tag, count=True):
     if not recs:
         return {}
     t0 = time.time()
-    verdicts, st, tr, wall = tlc.judge(rep.pid, module, recs, cfg, shards=min(16, max(1, len(recs) // 25)), tag=tag)
+    verdicts, st, tr, wall = tlc.judge(rep.pid, module, recs, cfg, shards=min(SHARDS, max(1, len(recs) // 25)), tag=tag)
     timed(rep, "tlc_judge", t0)
     if count:
         rep.add_judge(len(recs), st, tr)
@@ -163,6 +172,55 @@ def report(rep, cases, results, verdicts, label=lambda c: "%s %s" % (c.get("fam"
     return npass
 
 
+TRACE_CFG = "SPECIFICATION Spec\nCONSTRAINT Report\nINVARIANT ShadowSane\nCHECK_DEADLOCK FALSE\n"
+
+
+def trace_stage(rep, cases, nmax, label=lambda c: "%s %s" % (c.get("fam"), json.dumps(c.get("par"), sort_keys=True))):
+    """code -> spec: every instruction the engine executes for (a spread of) the enumerated programs is validated against the
+    lead's total trace specification spec/JsVM_Trace.tla (operand / handler / frame depths at every step, jump targets, the
+    throw rule: next instruction = catch address of the innermost handler, frames above it gone, depth = depth at TRY_START + 1,
+    no native loop resumes).  One corrupted trace must be rejected (binding self-test)."""
+    if not cases or nmax <= 0:
+        return
+    step = max(1, len(cases) // nmax)
+    sel = cases[::step][:nmax]
+    tcases = [{"id": "t:%s" % c["id"], "src": render.render(c["prog"])[0], "limit": 8000} for c in sel]
+    t0 = time.time()
+    tres = engine.run_cases(rep.pid, tcases, driver="checks.trace_driver:driver", tag="traces", timeout=3000)
+    timed(rep, "engine_traces", t0)
+    traces = [{"id": r["id"], "ev": r["ev"], "end": r["end"]} for r in tres if r["ev"] and not r["over"]]
+    if len(traces) < len(tcases) * 0.9:
+        raise Machinery("too many traces truncated: %d of %d usable" % (len(traces), len(tcases)))
+    base = next((t for t in traces if len(t["ev"]) > 40), None)
+    muts = []
+    if base is not None:
+        m = json.loads(json.dumps(base))
+        m["ev"][20]["sl"] += 1
+        m["id"] = "selftest:sl"
+        muts.append(m)
+    t0 = time.time()
+    tv, st, tr, _ = tlc.judge(rep.pid, "JsVM_Trace", traces + muts, TRACE_CFG, shards=min(SHARDS, max(1, len(traces) // 40)), tag="trace_judge")
+    timed(rep, "tlc_trace_judge", t0)
+    rep.add_judge(len(traces), st, tr)
+    rep.notes["trace_events"] = rep.notes.get("trace_events", 0) + sum(len(t["ev"]) for t in traces)
+    byid = {"t:%s" % c["id"]: c for c in sel}
+    src = {t["id"]: t["src"] for t in tcases}
+    seen = set()
+    for v in tv:
+        if v["id"] in seen:
+            continue
+        seen.add(v["id"])
+        if v["id"].startswith("selftest:"):
+            if v["ok"]:
+                raise Machinery("JsVM_Trace accepted a corrupted trace: binding is vacuous")
+            continue
+        if not v["ok"]:
+            rep.mismatch("trace " + label(byid[v["id"]]), {"verdict": "instruction trace rejected", "clause": v.get("why"), "source": src[v["id"]]})
+    if muts and "selftest:sl" not in seen:
+        raise Machinery("self-test trace was not judged")
+    rep.spaces.append({"space": "instruction traces validated against JsVM_Trace", "cases": len(traces), "complete": False})
+
+
 def run(rep):
     fams = os.environ.get("C05_FAMS")            # development aid: restrict the families
     cases = enumerate_programs(rep, "C05", rep.tier, env={"FAMS": fams} if fams else None)
@@ -173,27 +231,29 @@ def run(rep):
         fams[c["fam"]] = fams.get(c["fam"], 0) + 1
     rep.spaces.append({"space": "C05 program families (TLC-enumerated): " + ", ".join("%s=%d" % kv for kv in sorted(fams.items())),
                        "cases": len(cases), "complete": True})
-    results = run_engine(rep, cases)
-    recs = [{"id": c["id"], "prog": c["prog"], "log": results[c["id"]]["log"], "out": results[c["id"]]["out"],
-             "pos": results[c["id"]]["pos"]} for c in cases]
-    verdicts = judge(rep, "C05", recs)
-    report(rep, cases, results, verdicts)
     # seeded random larger programs (generated as ASTs; the reference outcome is computed by TLC in the judge run)
     nrand = int(os.environ.get("C05_NRAND", "300" if rep.tier == "quick" else "3000"))
     rnd = random.Random(rep.seed)
     rcases = [{"id": "r%d" % i, "fam": "RND", "par": {"seed": rep.seed, "n": i}, "prog": c05_gen.random_program(rnd)}
               for i in range(nrand)]
-    rresults = run_engine(rep, rcases, tag="eng_rnd")
-    rrecs = [{"id": c["id"], "prog": c["prog"], "log": rresults[c["id"]]["log"], "out": rresults[c["id"]]["out"],
-              "pos": rresults[c["id"]]["pos"]} for c in rcases]
-    rverdicts = judge(rep, "C05", rrecs, tag="judge_rnd", enumerated=False)
-    report(rep, rcases, rresults, rverdicts)
+    allc = cases + rcases
+    results = run_engine(rep, allc)
+    recs = [{"id": c["id"], "prog": c["prog"], "log": results[c["id"]]["log"], "out": results[c["id"]]["out"],
+             "pos": results[c["id"]]["pos"]} for c in allc]
+    verdicts = judge(rep, "C05", recs, enumerated=False)
+    for c in cases:
+        if verdicts[c["id"]]["v"] == "skip":
+            raise Machinery("reference machine could not run an enumerated program (%s): %s" % (verdicts[c["id"]].get("why"), c["par"]))
+    report(rep, allc, results, verdicts)
+    rverdicts = {c["id"]: verdicts[c["id"]] for c in rcases}
+    rrecs = rcases
+    trace_stage(rep, [c for c in cases if c["fam"] in ("CF", "CL")], int(os.environ.get("C05_NTRACE", "250" if rep.tier == "quick" else "1500")))
     skipped = sum(1 for v in rverdicts.values() if v["v"] == "skip")
     if nrand and skipped * 3 > nrand:
         raise Machinery("%d of %d random programs fall outside the step bound: generator and bound disagree" % (skipped, nrand))
     rep.spaces.append({"space": "seeded random programs (functions, bounded loops, recursion, closures, labelled exits, try/finally)",
                        "cases": nrand, "judged": nrand - skipped, "complete": False})
-    rep.evaluations = len(recs) + len(rrecs)
+    rep.evaluations = len(recs)
     rep.exhaustive = True          # every TLC-enumerated family was completed; the random part is a sample by nature
     rep.assumptions += ["MiniJS.tla is the ECMAScript strict-mode semantics of the fragment (DESIGN 4.2, 4.4)",
                         "harness/render.py prints the AST faithfully (fully parenthesised, one statement per line)"]
